@@ -10,7 +10,10 @@
        dt * k_tot = j * ln 2                                        (point law, replayed)
    and, ln being monotone, dt >= j ln2/k_tot  <=>  u <= 2^(-j), so the survival function on
    the lattice is  P(dt >= j ln2/k_tot) = #{i : 2^K - i <= 2^(K-j)} / 2^K = 2^(-j)
-   = exp(-k_tot t): exactly the exponential law (checked by TLC for every j).           *)
+   = exp(-k_tot t): exactly the exponential law (checked by TLC for every j).
+   (The antithetic transform dt = -ln(r)/k_tot has the same law for r in (0,1) but takes
+   ln 0 at r = 0; the harness admits its values too and demands a finite result for every
+   lattice draw, r = 0 included.)                                                        *)
 EXTENDS Integers, FiniteSets, TLC, Json
 CONSTANTS K,        \* resolution of the raw uniform lattice: r = i/2^K
           RateSet,  \* total escape rates (integers; the harness scales them)
